@@ -961,6 +961,7 @@ fn step(c: &mut Case, pf: &Profile)
         if tainted { let w = c.rng.below(3) as usize; c.export(h, w); } else { c.execute(h, n); }
     }
     else if r < 75 { if tainted { c.histogram(h); } else { c.reexecute(h); } }
+    else if h.is_none() && r >= 75 && (r < 80 || (r >= 90 && r < 92) || r >= 98) { c.histogram(h); }   // no NULL handle for the three getters that `assert!` it
     else if r < 80 { c.cstate(h); }
     else if r < 84 { let _ = executed; c.histogram(h); }
     else if r < 90 { let w = c.rng.below(3) as usize; c.export(h, w); }
